@@ -59,6 +59,10 @@ def oracle(ctx, world):
         snap = r["after"].get(name)
         if snap is None:
             continue
+        if "UNOBSERVABLE" in snap:
+            ctx.violation(what="after a call the waveform can no longer be observed (its accessors raise)", line=r["line"][:200], observed=snap[:200],
+                          required="a consistent waveform")
+            return
         f = snap_fields(snap)
         rows = parse_rows(f["data"])
         start, count, cap, ncols = int(f["start"]), int(f["count"]), int(f["cap"]), int(f["ncols"])
@@ -203,6 +207,77 @@ def borrowed_and_factory_cases(ctx):
                         ctx.violation(what="a waveform built by from_array_2d(copy=True) could not grow / lost samples", cls=cls.__name__, source=sname,
                                       row=i, op=op, observed=show(r)[:160] if r[0] != "ok" else str(got), required=str(exp))
                         return n
+    # sizes and indices given as narrow NumPy integer scalars on waveforms longer than those types can count: the geometry
+    # must be the one the same Python ints give (fixed-width arithmetic must not leak into the index computations)
+    def geom(w):
+        d = w.data if not hasattr(w, "raw_data") else w.raw_data
+        return (w.start_index, w.sample_count, w.capacity, len(d))
+    NP = [np.uint8, np.int8, np.int16, np.uint16, np.int64, np.uint64]
+    big = {"analog": lambda n: AnalogWaveform.from_array_1d(np.arange(n, dtype=np.float64), np.float64),
+           "spectrum": lambda n: Spectrum.from_array_1d(np.arange(n, dtype=np.float64), np.float64),
+           "digital": lambda n: DigitalWaveform.from_lines((np.arange(n) % 2).astype(np.uint8))}
+    for kname, mkbig in big.items():
+        for n_samples in (250, 300, 40000):
+            for a, b in ((200, 100), (200, 50), (100, 200), (10, None), (250, 0), (255, 1), (127, 1), (128, 127), (32767, 1), (30000, 9000)):
+                for T in NP:
+                    info = np.iinfo(T)
+                    if not (info.min <= a <= info.max and (b is None or info.min <= b <= info.max)):
+                        continue
+                    if n_samples == 40000 and T not in (np.int16, np.uint16):
+                        continue
+                    ta, tb = T(a), (None if b is None else T(b))
+                    w = mkbig(n_samples)
+                    getter = w.get_data if hasattr(w, "get_data") and not hasattr(w, "get_raw_data") else w.get_raw_data
+                    r = outcome(getter, ta, tb)
+                    cnt = (n_samples - a) if b is None else b
+                    fits = a <= n_samples and a + cnt <= n_samples
+                    n += 1
+                    ctx.case(("npint-window", kname, n_samples, a, b, T.__name__))
+                    if fits != (r[0] == "ok") or (r[0] == "ok" and len(r[1]) != cnt) or (r[0] == "err" and r[1] != "ValueError"):
+                        ctx.violation(what="window given as NumPy integer scalars", cls=kname, samples=n_samples, start=repr(ta), count=repr(tb),
+                                      observed=show(r)[:120] if r[0] != "ok" else f"{len(r[1])} samples", required=f"{cnt} samples" if fits else "ValueError")
+                        return n
+                    # load_data(copy=False, start, count) and the constructor window
+                    src = np.arange(n_samples, dtype=np.float64) if kname != "digital" else (np.arange(n_samples) % 2).astype(np.uint8)
+                    w2 = mkbig(3)
+                    r = outcome(lambda: w2.load_data(src, copy=False, start_index=ta, sample_count=tb))
+                    g = geom(w2)
+                    if fits != (r[0] == "ok") or (r[0] == "ok" and (g[1] != cnt or g[3] != cnt)) or (r[0] != "ok" and g != (0, 3, 3, 3)):
+                        ctx.violation(what="load_data window given as NumPy integer scalars", cls=kname, samples=n_samples, start=repr(ta), count=repr(tb),
+                                      observed=f"{show(r)[:80]} geometry {g}", required=f"sample_count {cnt} and as many samples" if fits else "ValueError, unchanged")
+                        return n
+        for T in NP:
+            # sized constructor + append across the type's range
+            info = np.iinfo(T)
+            c0 = min(200, info.max)
+            if kname == "digital":
+                r = outcome(lambda: DigitalWaveform(T(c0), 1, capacity=400))
+            else:
+                r = outcome(lambda: {"analog": AnalogWaveform, "spectrum": Spectrum}[kname](T(c0), capacity=400))
+            if r[0] != "ok":
+                ctx.violation(what="sized constructor refused a NumPy integer size", cls=kname, size=repr(T(c0)), observed=show(r)[:120], required="a waveform")
+                return n
+            w = r[1]
+            extra = np.ones(100, np.float64) if kname != "digital" else np.ones(100, np.uint8)
+            r2 = outcome(w.append, extra)
+            g = geom(w)
+            n += 1
+            ctx.case(("npint-size", kname, T.__name__))
+            if r2[0] != "ok" or g[1] != c0 + 100 or g[3] != c0 + 100 or g[0] + g[1] > g[2]:
+                ctx.violation(what="append after a constructor called with a NumPy integer size", cls=kname, size=repr(T(c0)),
+                              observed=f"{show(r2)[:80]} geometry {g}", required=f"{c0 + 100} samples")
+                return n
+            if kname == "spectrum":
+                continue            # Spectrum has no sample_count setter
+            w = mkbig(3)
+            w.capacity = 400
+            r3 = outcome(setattr, w, "sample_count", T(min(120, info.max)))
+            r4 = outcome(w.append, extra)
+            g = geom(w)
+            if r3[0] != "ok" or r4[0] != "ok" or g[1] != min(120, info.max) + 100 or g[3] != g[1]:
+                ctx.violation(what="append after assigning a NumPy integer sample_count", cls=kname, observed=f"{show(r3)[:60]} {show(r4)[:60]} geometry {g}",
+                              required=f"{min(120, info.max) + 100} samples")
+                return n
     for label, mk in (("from_lines-1d", lambda: DigitalWaveform.from_lines(np.array([1, 0, 1], np.uint8))),
                       ("from_lines-2d", lambda: DigitalWaveform.from_lines(np.array([[1, 0], [0, 1]], np.uint8))),
                       ("from_lines-view", lambda: DigitalWaveform.from_lines(np.arange(12, dtype=np.uint8).reshape(6, 2)[1:4] % 2)),
